@@ -98,7 +98,8 @@ func fields(s string) ([]string, bool) {
 	if s == "" || trimOptSep(s) != s {
 		return nil, false
 	}
-	return strings.Fields(s), true
+	// sep = 1*(WSP / line-break): SP, HTAB, CRLF, LF only - not Unicode white space
+	return strings.FieldsFunc(s, func(r rune) bool { return r == ' ' || r == '\t' || r == '\r' || r == '\n' }), true
 }
 
 // Key: node-identifier *(sep node-identifier).
